@@ -136,7 +136,7 @@ void AspifInput::matchWLits(int32_t minW) {
 	for (uint32_t len = matchPos("number of literals expected"); len--;) { rule_->addGoal(matchWLit(minW)); }
 }
 void AspifInput::matchString() {
-	uint32_t len = matchPos("non-negative string length expected");
+	uint32_t len = matchPos(static_cast<unsigned>(INT_MAX), "non-negative string length expected"); // copy() takes an int
 	stream()->get();
 	data_->sym.resize(len);
 	require(stream()->copy(len ? &data_->sym[0] : static_cast<char*>(0), (int)len) == (int)len, "invalid string");
